@@ -208,6 +208,75 @@ func deepCopy(x interface{}, g *G) interface{} {
 	}
 }
 
+// Storage pools for values handed to the code under test: a host builds its next pattern or message in buffers and
+// maps it used for the previous one.  The result of a call must not depend on what stood at those addresses before.
+type recycler struct {
+	arrays map[int][][]interface{}          // by length
+	maps   map[int][]map[string]interface{} // by number of keys
+}
+
+func newRecycler() *recycler {
+	return &recycler{arrays: map[int][][]interface{}{}, maps: map[int][]map[string]interface{}{}}
+}
+
+// give hands the storage of a value that is no longer used to the pool
+func (r *recycler) give(x interface{}) {
+	switch v := x.(type) {
+	case []interface{}:
+		for _, y := range v {
+			r.give(y)
+		}
+		if len(v) > 0 && len(r.arrays[len(v)]) < 8 {
+			r.arrays[len(v)] = append(r.arrays[len(v)], v)
+		}
+	case map[string]interface{}:
+		n := len(v)
+		for _, y := range v {
+			r.give(y)
+		}
+		if n > 0 && len(r.maps[n]) < 8 {
+			r.maps[n] = append(r.maps[n], v)
+		}
+	}
+}
+
+// build is deepCopy into recycled storage where some of the right size is at hand
+func (r *recycler) build(x interface{}) interface{} {
+	switch v := x.(type) {
+	case []interface{}:
+		elems := make([]interface{}, len(v))
+		for i, y := range v {
+			elems[i] = r.build(y)
+		}
+		if pool := r.arrays[len(v)]; len(pool) > 0 {
+			buf := pool[len(pool)-1]
+			r.arrays[len(v)] = pool[:len(pool)-1]
+			copy(buf, elems)
+			return buf
+		}
+		return elems
+	case map[string]interface{}:
+		vals := make(map[string]interface{}, len(v))
+		for k, y := range v {
+			vals[k] = r.build(y)
+		}
+		if pool := r.maps[len(v)]; len(pool) > 0 {
+			m := pool[len(pool)-1]
+			r.maps[len(v)] = pool[:len(pool)-1]
+			for k := range m {
+				delete(m, k)
+			}
+			for k, y := range vals {
+				m[k] = y
+			}
+			return m
+		}
+		return vals
+	default:
+		return x
+	}
+}
+
 func loadJSON(path string, into interface{}) {
 	js, err := os.ReadFile(path)
 	if err != nil {
